@@ -15,6 +15,9 @@ def gadgets():
         "valid_y": [L([(-5, 0), (5, 0)]), L([(1, 0), (1, 6)])],
         "valid_single": [L([(-4, -3), (2, 1), (6, 2)])],
         "vnode": [L([(0, 0), (5, 1)]), L([(0, 0), (-4, 3)])],
+        # one fracture digitised in three / four pieces: the inner pieces share an END with a different trace at each of their ends
+        "vchain3": [L([(-5, -1), (-1, 0)]), L([(-1, 0), (1, 0.75), (3, 1)]), L([(3, 1), (6, 1.5)])],
+        "vchain4": [L([(-6, 2), (-3, 0)]), L([(-3, 0), (0, 1)]), L([(4, -1), (0, 1)]), L([(4, -1), (7, 3)])],
         "multijunction": [L([(-5, 0), (5, 0)]), L([(0, -5), (0, 5)]), L([(-4, -4), (4, 4)])],
         "stacked": [L([(-5, 0), (5, 0)]), L([(-2, 0), (8, 0)])],
         "cuts_itself": [L([(-5, 0), (5, 0), (5, 5), (0, -5)])],
@@ -39,6 +42,11 @@ def gadgets():
         # a mergeable multi-part line that takes part in a node defect only AFTER it has been merged by the fix
         "mls_vnode": [MultiLineString([[(0, 0), (1, 1)], [(1, 1), (2, 3)]]), L([(2, 3), (6, 3)])],
         "mls_vnode_start": [MultiLineString([[(1, 1), (2, 3)], [(0, 0), (1, 1)]]), L([(0, 0), (-4, 1)])],
+        # ... or in a snap / stacking / crosscut defect of ANOTHER (single-part) row, which finds the merged line only through its candidates
+        "mls_underlap": [MultiLineString([[(-5, 0), (0.5, 0)], [(0.5, 0), (5, 0)]]), L([(1, 3), (1, 0.0105)])],
+        "mls_overlap": [L([(-1, 3), (-1, -0.0105)]), MultiLineString([[(0.5, 0), (5, 0)], [(-5, 0), (0.5, 0)]])],
+        "mls_stacked": [MultiLineString([[(-5, 0), (0.5, 0)], [(0.5, 0), (5, 0)]]), L([(-2, 0), (8, 0)])],
+        "mls_multicross": [L([(-5, -1), (-3, 1), (-1, -1), (1, 1), (3, -1)]), MultiLineString([[(-6, 0), (0.5, 0)], [(0.5, 0), (6, 0)]])],
         "mls_multijunction": [MultiLineString([[(-4, -4), (0, 0)], [(0, 0), (4, 4)]]), L([(-5, 0), (5, 0)]), L([(0, -5), (0, 5)])],
     }
 
